@@ -15,7 +15,7 @@
    schedule) that then every Send returns, every channel is closed and every goroutine ends.
 
    C10_ok is evaluated on the recorded run alone and does not use the transition system. *)
-From SC Require Import Base.Prelude Bus.Bus Bus.Pipe Bus.Explore Bus.PipeJudge.
+From SC Require Import Base.Prelude Bus.Bus Bus.Pipe Bus.Explore Bus.PipeJudge Bus.Res Bus.ResJudge Bus.ShapeJudge.
 
 (* ---------- controller actions ---------- *)
 Inductive action :=
@@ -176,7 +176,9 @@ Record finrec := mkFin { f_calls : list callrec; f_ls : list lrec; f_panics : Z;
 Inductive c10case :=
 | KScript (nsenders : nat) (script : list (action * list Z)) (fin : finrec)
 | KFree (f : finrec)      (* free-running run: only the end-of-run record; times are ticks of a global counter *)
-| KPipe (sc : pipecase).
+| KPipe (sc : pipecase)
+| KRes (rc : rescase)
+| KShape (rows : list gshape) (facts : list (string * bool)).   (* read from the source, see ShapeJudge.v *)   (* writers / readers / subscribers of one Collection, see ResJudge.v *)
 
 (* ---------- the oracle ---------- *)
 Fixpoint incr_for (s : Z) (last : Z) (log : list (Z * Z)) : bool :=
@@ -208,6 +210,8 @@ Definition C10_ok (c : c10case) : bool :=
   | KScript _ _ f => script_ok f
   | KFree f => script_ok f
   | KPipe p => pipe_ok p
+  | KRes r => res_ok r
+  | KShape _ _ => true
   end.
 
 Definition C10_guard (c : c10case) : bool := true.
@@ -244,6 +248,8 @@ Definition agrees (c : c10case) : bool :=
          calls return, every consumer sees the close, no goroutine is left, nothing panics *)
       forallb c_ret (f_calls f) && forallb r_closed (f_ls f) && (f_leaks f =? 0) && (f_panics f =? 0)
   | KPipe p => pipe_agrees p
+  | KRes r => res_agrees r
+  | KShape rows facts => shape_agrees rows facts
   end.
 
 Definition known_class (c : c10case) : option Z :=
@@ -251,6 +257,8 @@ Definition known_class (c : c10case) : option Z :=
   | KScript _ _ _ => None
   | KFree _ => None
   | KPipe p => pipe_known p
+  | KRes _ => None
+  | KShape _ _ => None
   end.
 
 Definition judge (c : c10case) : Z :=
